@@ -681,6 +681,56 @@ def check_wiring(facts):
             for v in ("GeneralCategory", "Script", "ScriptExtensions", "None"):
                 if v not in seen_variants and "_" not in seen_variants:
                     r.fail("unicode_property_from_str name=%s" % v, "no arm handles property name %s" % v, facts.loc(fnp))
+    # a lone name (`\\p{Lu}`) is rejected only after every always-applicable table has been asked: General_Category values and binary
+    # properties (the string properties are asked in addition under `v`; their miss is not the verdict)
+    if facts.has_body(fnp):
+        b = facts.body(fnp)
+        name_params = [l for l in range(1, b.argc + 1) if "UnicodePropertyName" in b.local_ty(l)]
+        entry = None
+        for bi in sorted(b.reachable()):
+            blk = b.blocks[bi]
+            for st in blk["s"]:
+                if st["k"] == "assign" and st["rv"]["k"] == "discr" and name_params and b.root_of(st["rv"]["pl"]["l"])[0] == name_params[0] \
+                        and blk["t"]["k"] == "switch":
+                    names = dict((v, nme) for v, nme in st["rv"].get("variants", []))
+                    tg = [t_ for v, t_ in blk["t"]["targets"] if names.get(v) == "None"]
+                    if not tg and all(names.get(v) != "None" for v, _ in blk["t"]["targets"]):
+                        tg = [blk["t"]["otherwise"]]
+                    if tg and entry is None:
+                        entry = tg[0]
+        key = "unicode_property_from_str lone name is rejected only after the gc-value and binary tables were asked"
+        if entry is None:
+            r.error("%s: the branch for a lone name (no `name=`) was not found" % fnp)
+        else:
+            noneret = set()
+            for bi in b.reachable():
+                blk = b.blocks[bi]
+                if any(st["k"] == "assign" and st["pl"]["l"] == 0 and not st["pl"]["p"] and st["rv"]["k"] == "agg" and str(st["rv"].get("variant")) == "None"
+                       for st in blk["s"]):
+                    noneret.add(bi)
+                t_ = blk["t"]
+                if t_["k"] == "call" and t_["dest"]["l"] == 0 and not t_["dest"]["p"] and (t_.get("callee") or "").endswith("FromResidual::from_residual"):
+                    noneret.add(bi)
+            noneret &= b.reach_from(entry)
+            probs = []
+            nk = 0
+            for kind, label in (("GeneralCategory", "General_Category value"), ("Binary", "binary property")):
+                blocks = {bb_ for bb_, t_ in b.iter_calls() if (t_.get("callee") or "").endswith("_from_str") and kind in b.local_ty(t_["dest"]["l"])
+                          and bb_ in b.reach_from(entry)}
+                if not blocks:
+                    probs.append("no %s lookup on the lone-name branch" % label)
+                    continue
+                nk += 1
+                around = b.reach_from(entry, avoid=blocks)
+                if around & noneret:
+                    probs.append("a `None` (\"Invalid property name\") is returned on a path that never asked the %s table" % label)
+            if probs:
+                r.fail(key, "%s: under some flag combination a lone name that is a valid %s is rejected (e.g. `\\p{Lu}` under `v` when the "
+                            "string-property miss is propagated with `?`)" % ("; ".join(probs), "General_Category value or binary property"), facts.loc(fnp))
+            elif not noneret:
+                r.error("%s: no None return found on the lone-name branch" % fnp)
+            else:
+                r.ok(key, "%d failing exits, each behind both lookups" % len(noneret))
     # script names: wiring only (long name normalises to the variant)
     fn = "unicodetables::unicode_property_value_script_from_str"
     got = from_str_arms(facts, fn)
